@@ -137,6 +137,36 @@ def h_qubit_op(env, words, nq, order, steps, control, time_mode, use_trotterize,
                      f"phase*unitary(trotterize order={order} steps={steps} control={control}) == product formula")
 
 
+def h_unitary(env, words, nq, order, steps, n_steps, control, method, via_default):
+    """TrotterSuzukiUnitary.build_circuit(n_steps, control, method): 'time' -> one product formula for time*n_steps,
+    'repeat' -> the product formula for `time`, n_steps times; with the order / step count the object was created with."""
+    from tangelo.toolboxes.operators import QubitOperator
+    from tangelo.toolboxes.unitary_generator import TrotterSuzukiUnitary
+    coefs = [env.real(f"c{i}", lo=-3, hi=3) for i in range(len(words))]
+    op = QubitOperator()
+    for w, c in zip(words, coefs):
+        op.terms[w] = c
+    t = env.real("t", lo=-3, hi=3)
+    if via_default:
+        un = TrotterSuzukiUnitary(op, time=t, trotter_order=order, n_trotter_steps=steps, n_steps_method=method)
+        circ = un.build_circuit(n_steps, control=control)
+    else:
+        other = "repeat" if method == "time" else "time"
+        un = TrotterSuzukiUnitary(op, time=t, trotter_order=order, n_trotter_steps=steps, n_steps_method=other)
+        circ = un.build_circuit(n_steps, control=control, method=method)
+    ctl = [] if control is None else ([control] if isinstance(control, int) else list(control))
+    U = R.unitary(circ._gates, nq)
+    if method == "time":
+        seq = suzuki([(w, op.terms[w] * t * n_steps) for w in op.terms], order, R.C(1) / steps) * steps
+    else:
+        seq = suzuki([(w, op.terms[w] * t) for w in op.terms], order, R.C(1) / steps) * steps * n_steps
+    S = product_formula([(w, a) for w, a in seq], nq, ctl)
+    env.check_vec_eq([x for col in U for x in col], [x for col in S for x in col],
+                     f"TrotterSuzukiUnitary(order={order}, n_trotter_steps={steps}).build_circuit({n_steps}, control={control}, {method}) == product formula")
+    sq, anc = un.qubit_indices()
+    env.check_true(list(sq) == list(range(nq - len(ctl))) and list(anc) == [], "qubit_indices")
+
+
 def h_fermion_op(env, nq, mapping, order, steps, time_mode="scalar", canary=False):
     """fermionic input: trotterize maps with the real fermion_to_qubit_mapping (C03 checks the mapping itself); the oracle
     maps the time-scaled operator sum_k c_k t_k T_k and exponentiates the result by the reference product formula"""
@@ -245,6 +275,13 @@ def shapes(tier, seed):
                                                                 time_mode="dict", use_trotterize=True, ident=True), modules=MODS))
     out.append(Shape("qubitop/X0X1+Z0/direct/o2", h_qubit_op, dict(words=[((0, "X"), (1, "X")), ((0, "Z"),)], nq=2, order=2, steps=1,
                                                                   control=None, time_mode="dict", use_trotterize=False, ident=True), modules=MODS))
+    ucfg = [(o, s, k, c, m, d) for o in (1, 2) for s in (1, 2) for k in (1, 2) for c in (None, 2) for m in ("time", "repeat") for d in (True, False)]
+    if tier == "quick":
+        ucfg = [u for u in ucfg if u[0] == 2 and u[5]] + rnd.sample([u for u in ucfg if not (u[0] == 2 and u[5])], 6)
+    for (o, s, k, c, m, d) in ucfg:
+        out.append(Shape(f"unitary/X0X1+Z0/o{o}s{s}/n{k}/ctl={c}/{m}/{'default' if d else 'arg'}", h_unitary,
+                         dict(words=[((0, "X"), (1, "X")), ((0, "Z"),)], nq=2 + (c is not None), order=o, steps=s, n_steps=k, control=c,
+                              method=m, via_default=d), modules=MODS + ("tangelo.toolboxes.unitary_generator.trotter_suzuki",)))
     out.append(Shape("canary/qubitop/sign", h_qubit_op, dict(words=[((0, "X"), (1, "X")), ((0, "Z"),)], nq=2, order=1, steps=1,
                                                             control=None, time_mode="scalar", use_trotterize=True, ident=False, canary=True),
                      modules=MODS, canary=True))
